@@ -22,6 +22,12 @@ func vfGuardNoWrite(name string, roots ...any)      {}
 func vfGuardAtomic(name string, roots ...any)       {}
 func vfGuardStop(objs ...any)                       {}
 func vfGuardConfined(name, owner string, roots ...any) {}
+
+// vfGuardField: like vfGuard, but the lock is named by (struct pointer, field name) so that the
+// harness still compiles when a change removes the lock; the guarded data is then reported on
+// every access.
+func vfGuardField(name string, structPtr any, lockField string, roots ...any)   {}
+func vfGuardFieldRW(name string, structPtr any, lockField string, roots ...any) {}
 func vfMonitorOn()                                  {}
 func vfMonitorOff()                                 {}
 
@@ -29,15 +35,15 @@ func vfGuardSession(s *UDPSession) {
 	// the core's identity fields are fixed at construction (G4) and may be read anywhere
 	vfGuardNoWrite("kcp.conv", &s.kcp.conv)
 	vfGuardStop(&s.kcp.conv, &s.kcp.output)
-	vfGuard("s.mu", &s.mu, s.kcp, &s.recvbuf, &s.bufptr, &s.writeDelay, &s.ackNoDelay)
+	vfGuardField("s.mu", s, "mu", s.kcp, &s.recvbuf, &s.bufptr, &s.writeDelay, &s.ackNoDelay)
 	if s.fecDecoder != nil {
-		vfGuard("s.mu", &s.mu, s.fecDecoder)
+		vfGuardField("s.mu", s, "mu", s.fecDecoder)
 	}
 	vfGuardNoWrite("session-constants", &s.conn, &s.ownConn, &s.kcp, &s.l, &s.block, &s.remote, &s.headerSize, &s.fecEncoder, &s.die, &s.chReadEvent, &s.chWriteEvent, &s.chPostProcessing)
 	vfGuardAtomic("atomics", &s.rd, &s.wd, &s.socketReadError, &s.socketWriteError, &s.rateLimiter, &s.callbackForOOB)
 	if bc, ok := s.block.(*blockCrypt); ok {
-		vfGuard("encMu", &bc.encMu, &bc.encbuf)
-		vfGuard("decMu", &bc.decMu, &bc.decbuf)
+		vfGuardField("encMu", bc, "encMu", &bc.encbuf)
+		vfGuardField("decMu", bc, "decMu", &bc.decbuf)
 	}
 	// G5 the FEC encoder has no lock: it is confined to the post-processing goroutine
 	if s.fecEncoder != nil {
@@ -53,9 +59,9 @@ func vfH_C14_session_methods() {
 	s := []*UDPSession{pr.client, pr.srv}[vfPick("side", 0, 1)]
 	vfAssume(s != nil)
 	vfGuardSession(s)
-	vfGuardRW("sessionLock", &pr.l.sessionLock, &pr.l.sessions)
+	vfGuardFieldRW("sessionLock", pr.l, "sessionLock", &pr.l.sessions)
 	vfGuardAtomic("snmp", DefaultSnmp)
-	vfGuard("prependLock", &SystemTimedSched.prependLock, &SystemTimedSched.prependTasks)
+	vfGuardField("prependLock", SystemTimedSched, "prependLock", &SystemTimedSched.prependTasks)
 	vfReach("guarded")
 	vfMonitorOn()
 	when := time.Now().Add(time.Duration(vfInt("dl")))
@@ -133,13 +139,13 @@ func vfH_C14_listener_methods() {
 	pr := vfConnect(ck, d, p, 1)
 	vfAssume(pr.srv != nil)
 	vfGuardSession(pr.srv)
-	vfGuardRW("sessionLock", &pr.l.sessionLock, &pr.l.sessions)
+	vfGuardFieldRW("sessionLock", pr.l, "sessionLock", &pr.l.sessions)
 	vfGuardNoWrite("listener-constants", &pr.l.block, &pr.l.dataShards, &pr.l.parityShards, &pr.l.conn, &pr.l.ownConn, &pr.l.chAccepts, &pr.l.die)
 	vfGuardAtomic("listener-atomics", &pr.l.rd, &pr.l.socketReadError)
 	vfGuardAtomic("snmp", DefaultSnmp)
 	if bc, ok := pr.l.block.(*blockCrypt); ok {
-		vfGuard("encMu", &bc.encMu, &bc.encbuf)
-		vfGuard("decMu", &bc.decMu, &bc.decbuf)
+		vfGuardField("encMu", bc, "encMu", &bc.encbuf)
+		vfGuardField("decMu", bc, "decMu", &bc.decbuf)
 	}
 	vfReach("guarded")
 	l := pr.l
@@ -181,7 +187,7 @@ func vfH_C14_listener_methods() {
 // TimedSched.Put: the shared task list only under its lock
 func vfH_C14_timedsched_put() {
 	ts := vfInertSched()
-	vfGuard("prependLock", &ts.prependLock, &ts.prependTasks)
+	vfGuardField("prependLock", ts, "prependLock", &ts.prependTasks)
 	vfReach("guarded")
 	vfMonitorOn()
 	ts.Put(func() {}, time.Now().Add(time.Duration(vfInt("d"))))
@@ -198,7 +204,7 @@ func vfNewCipherBlock() cipher.Block { return vfNewBlock(16) }
 func vfH_C14_entropy_aes() {
 	r := &rngAES{block: vfNewBlock(16)}
 	r.count = []uint64{0, reseedInterval - 1, reseedInterval}[vfPick("count", 0, 2)]
-	vfGuard("rngAES.mutex", &r.mutex, &r.seed, &r.count, &r.block)
+	vfGuardField("rngAES.mutex", r, "mutex", &r.seed, &r.count, &r.block)
 	vfReach("guarded")
 	p := make([]byte, []int{0, 5, 16, 40}[vfPick("len", 0, 3)])
 	vfMonitorOn()
